@@ -158,42 +158,64 @@ theorem builder_addFix (ty : NType) (a : Node) (rest : List Node) (n : Nat) (es 
 /-- Number of deque entries a call needs (it pops that many before anything else can go wrong). -/
 def Op.need : Op → Nat
   | .addExpression | .addAlternate | .addSequence | .addRange | .addDoubleRange => 2
-  | .addState _ | .addPeekFor | .addPeekNot | .addQuery | .addStar | .addPlus | .addPush => 1
+  | .addState _ | .addPeekFor | .addPeekNot | .addQuery | .addStar | .addPlus | .addPush
+  | .addCaseFold => 1
   | _ => 0
 
 /-- Number of entries it leaves in place of the ones it took. -/
 def Op.out : Op → Nat
   | _ => 1
 
-theorem toLowerS_cases (s : List Sym) : (∃ r, toLowerS s = .ok r) ∨ (∃ m, toLowerS s = .unsupported m) := by
-  unfold toLowerS; split
-  · exact .inl ⟨_, rfl⟩
-  · exact .inr ⟨_, rfl⟩
-theorem toUpperS_cases (s : List Sym) : (∃ r, toUpperS s = .ok r) ∨ (∃ m, toUpperS s = .unsupported m) := by
-  unfold toUpperS; split
-  · exact .inl ⟨_, rfl⟩
-  · exact .inr ⟨_, rfl⟩
+/-- `AddDoubleCharacter(text)` on ANY deque: the two-way choice lower / upper on top. -/
+theorem builder_addDoubleCharacter (s : List Sym) (items : List Node) (n : Nat) (es : List (List Sym)) :
+    addDoubleCharacterS s ⟨items, n, es⟩ =
+      .ok ⟨Node.mk .alternate [] 0 [.leaf .character (toLowerS s), .leaf .character (toUpperS s)] :: items,
+           n, es⟩ := by
+  simp only [addDoubleCharacterS, addCharacterS, BState.pushFront, builder_addList_flatten]
+  rfl
 
-/-- One call: it panics exactly when the deque holds fewer entries than it needs; when it
-    succeeds the deque has `len - need + 1` entries. -/
+/-- `AddCaseFold()` on ANY deque whose top node is `c` (whatever node that is): `c` stays when its
+    string has no case; otherwise it becomes the choice of its lower and upper case strings, followed
+    by `c` itself when its string is neither of the two. -/
+theorem builder_addCaseFold (c : Node) (rest : List Node) (n : Nat) (es : List (List Sym)) :
+    addCaseFoldS ⟨c :: rest, n, es⟩ =
+      .ok ⟨(if toLowerS c.s = toUpperS c.s then c
+            else if c.s ≠ toLowerS c.s ∧ c.s ≠ toUpperS c.s then
+              Node.mk .alternate [] 0
+                [.leaf .character (toLowerS c.s), .leaf .character (toUpperS c.s), c]
+            else Node.mk .alternate [] 0
+                [.leaf .character (toLowerS c.s), .leaf .character (toUpperS c.s)]) :: rest, n, es⟩ := by
+  simp only [addCaseFoldS, popFront_cons, builder_addDoubleCharacter, BState.pushFront]
+  by_cases h1 : toLowerS c.s = toUpperS c.s
+  · simp only [h1, if_true]
+  · simp only [h1, if_false, builder_addList_flatten]
+    split <;> simp [Node.t, Node.pushBack]
+
+theorem addCaseFold_nil (n : Nat) (es : List (List Sym)) :
+    addCaseFoldS ⟨[], n, es⟩ = .panic "tree is empty" := rfl
+
+/-- One call: it panics exactly when the deque holds fewer entries than it needs; otherwise it
+    succeeds (no call leaves the modelled fragment: `strings.ToLower` / `ToUpper` are modelled on every
+    rune) and the deque has `len - need + 1` entries. -/
 theorem Op.apply_spec (o : Op) (st : BState) :
     (st.items.length < o.need ∧ o.apply st = .panic "tree is empty") ∨
     (o.need ≤ st.items.length ∧
-      ((∃ st', o.apply st = .ok st' ∧ st'.items.length = st.items.length - o.need + o.out) ∨
-       (∃ m, o.apply st = .unsupported m))) := by
+      ∃ st', o.apply st = .ok st' ∧ st'.items.length = st.items.length - o.need + o.out) := by
   obtain ⟨items, rc, errs⟩ := st
   cases o
   case addDoubleCharacter s =>
     right
     refine ⟨by simp [Op.need], ?_⟩
-    simp only [Op.apply, bind, Out.bind]
-    rcases toLowerS_cases s with ⟨lo, hl⟩ | ⟨m, hl⟩ <;> rw [hl] <;> simp only
-    · rcases toUpperS_cases s with ⟨up, hu⟩ | ⟨m, hu⟩ <;> rw [hu] <;> simp only
-      · left
-        simp only [addCharacterS, BState.pushFront, builder_addList_flatten]
-        exact ⟨_, rfl, by simp [Op.need, Op.out]⟩
-      · exact .inr ⟨_, rfl⟩
-    · exact .inr ⟨_, rfl⟩
+    simp only [Op.apply, builder_addDoubleCharacter]
+    exact ⟨_, rfl, by simp [Op.need, Op.out]⟩
+  case addCaseFold =>
+    match items with
+    | [] => left; exact ⟨by simp [Op.need], rfl⟩
+    | c :: rest =>
+      right
+      refine ⟨by simp [Op.need], ?_⟩
+      simp only [Op.apply, builder_addCaseFold]
+      exact ⟨_, rfl, by simp [Op.need, Op.out]⟩
   case addDoubleRange =>
     match items with
     | [] => left; exact ⟨by simp [Op.need], rfl⟩
@@ -201,41 +223,32 @@ theorem Op.apply_spec (o : Op) (st : BState) :
     | a :: b :: rest =>
       right
       refine ⟨by simp [Op.need], ?_⟩
-      simp only [Op.apply, bind, Out.bind, popFront_cons]
-      rcases toLowerS_cases b.s with ⟨bl, h1⟩ | ⟨m, h1⟩ <;> rw [h1] <;> simp only
-      · rcases toLowerS_cases a.s with ⟨al, h2⟩ | ⟨m, h2⟩ <;> rw [h2] <;> simp only
-        · simp only [addCharacterS, BState.pushFront, builder_addList_flatten]
-          rcases toUpperS_cases b.s with ⟨bu, h3⟩ | ⟨m, h3⟩ <;> rw [h3] <;> simp only
-          · rcases toUpperS_cases a.s with ⟨au, h4⟩ | ⟨m, h4⟩ <;> rw [h4] <;> simp only
-            · left
-              exact ⟨_, rfl, by simp [Op.need, Op.out]⟩
-            · exact .inr ⟨_, rfl⟩
-          · exact .inr ⟨_, rfl⟩
-        · exact .inr ⟨_, rfl⟩
-      · exact .inr ⟨_, rfl⟩
+      simp only [Op.apply, bind, Out.bind, popFront_cons, addCharacterS, BState.pushFront,
+        builder_addList_flatten]
+      exact ⟨_, rfl, by simp [Op.need, Op.out]⟩
   case addHexaCharacter s =>
     right
-    refine ⟨by simp [Op.need], .inl ⟨_, rfl, ?_⟩⟩
+    refine ⟨by simp [Op.need], ⟨_, rfl, ?_⟩⟩
     simp only [Op.need, Op.out, addCharacterS, BState.pushFront]
     split <;> simp [BState.addErr]
   all_goals
     first
     | (right
-       refine ⟨by simp [Op.need], .inl ⟨_, rfl, ?_⟩⟩
+       refine ⟨by simp [Op.need], ⟨_, rfl, ?_⟩⟩
        simp [Op.need, Op.out, BState.pushFront, BState.pushBack, addCharacterS])
     | (match items with
        | [] => left; exact ⟨by simp [Op.need], rfl⟩
        | [_] => left; exact ⟨by simp [Op.need], rfl⟩
        | a :: b :: rest =>
          right
-         refine ⟨by simp [Op.need], .inl ?_⟩
+         refine ⟨by simp [Op.need], ?_⟩
          simp only [Op.apply, bind, Out.bind, popFront_cons, pure, builder_addList_flatten]
          exact ⟨_, rfl, by simp [Op.need, Op.out, BState.pushBack]⟩)
     | (match items with
        | [] => left; exact ⟨by simp [Op.need], rfl⟩
        | a :: rest =>
          right
-         refine ⟨by simp [Op.need], .inl ?_⟩
+         refine ⟨by simp [Op.need], ?_⟩
          simp only [Op.apply, bind, Out.bind, popFront_cons, pure, builder_addFix]
          exact ⟨_, rfl, by simp [Op.need, Op.out, BState.pushBack]⟩)
 
@@ -244,30 +257,34 @@ def balanced : List Op → Nat → Bool
   | [], _ => true
   | o :: os, n => decide (o.need ≤ n) && balanced os (n - o.need + o.out)
 
-/-- CHARACTERISATION of panic freedom: a sequence of builder calls panics ("tree is empty") only
-    if it is not balanced for the current deque length … -/
-theorem builder_never_panics_on_balanced (ops : List Op) (st : BState)
-    (h : balanced ops st.items.length = true) : ∀ m, applyOps ops st ≠ .panic m := by
+/-- CHARACTERISATION of panic freedom: a sequence of builder calls that is balanced for the current
+    deque length COMPLETES (no panic, and nothing outside the modelled fragment) … -/
+theorem builder_balanced_completes (ops : List Op) (st : BState)
+    (h : balanced ops st.items.length = true) : ∃ st', applyOps ops st = .ok st' := by
   induction ops generalizing st with
-  | nil => intro m; simp [applyOps]
+  | nil => exact ⟨st, rfl⟩
   | cons o os ih =>
-    intro m
     simp only [balanced, Bool.and_eq_true, decide_eq_true_eq] at h
-    rcases Op.apply_spec o st with ⟨hlt, _⟩ | ⟨_, ⟨st', he, hlen⟩ | ⟨m', he⟩⟩
+    rcases Op.apply_spec o st with ⟨hlt, _⟩ | ⟨_, st', he, hlen⟩
     · omega
     · simp only [applyOps, he]
-      exact ih st' (by rw [hlen]; exact h.2) m
-    · simp [applyOps, he]
+      exact ih st' (by rw [hlen]; exact h.2)
 
-/-- … and conversely an unbalanced sequence does not complete: it panics or leaves the modelled
-    fragment (the latter only through `strings.ToLower/ToUpper` on a non-ASCII rune). -/
-theorem builder_unbalanced_fails (ops : List Op) (st : BState)
-    (h : balanced ops st.items.length = false) : ∀ st', applyOps ops st ≠ .ok st' := by
+theorem builder_never_panics_on_balanced (ops : List Op) (st : BState)
+    (h : balanced ops st.items.length = true) : ∀ m, applyOps ops st ≠ .panic m := by
+  intro m hm
+  obtain ⟨st', he⟩ := builder_balanced_completes ops st h
+  rw [he] at hm
+  cases hm
+
+/-- … and conversely an unbalanced sequence PANICS with "tree is empty" (`PopFront` on the empty
+    deque) — it neither completes nor leaves the modelled fragment. -/
+theorem builder_unbalanced_panics (ops : List Op) (st : BState)
+    (h : balanced ops st.items.length = false) : applyOps ops st = .panic "tree is empty" := by
   induction ops generalizing st with
   | nil => simp [balanced] at h
   | cons o os ih =>
-    intro st''
-    rcases Op.apply_spec o st with ⟨hlt, he⟩ | ⟨hle, ⟨st', he, hlen⟩ | ⟨m', he⟩⟩
+    rcases Op.apply_spec o st with ⟨hlt, he⟩ | ⟨hle, st', he, hlen⟩
     · simp [applyOps, he]
     · simp only [applyOps, he]
       apply ih st'
@@ -276,7 +293,117 @@ theorem builder_unbalanced_fails (ops : List Op) (st : BState)
       rcases h with h | h
       · omega
       · exact h
-    · simp [applyOps, he]
+
+theorem builder_unbalanced_fails (ops : List Op) (st : BState)
+    (h : balanced ops st.items.length = false) : ∀ st', applyOps ops st ≠ .ok st' := by
+  intro st' hs
+  rw [builder_unbalanced_panics ops st h] at hs
+  cases hs
+
+/-! ### case folding: `strings.ToLower` / `strings.ToUpper` and `AddCaseFold` on one character -/
+
+/-- The node `AddCaseFold` leaves for a character node holding the one rune `r`: the character
+    itself when `r` has no case, else the choice of its lower and upper case, followed by `r` itself
+    when it is neither (title case). -/
+def foldNode (r : Sym) : Node :=
+  if lowerSym r = upperSym r then .leaf .character [r]
+  else if r ≠ lowerSym r ∧ r ≠ upperSym r then
+    .mk .alternate [] 0 [.leaf .character [lowerSym r], .leaf .character [upperSym r], .leaf .character [r]]
+  else .mk .alternate [] 0 [.leaf .character [lowerSym r], .leaf .character [upperSym r]]
+
+/-- `AddCaseFold()` after `Char` has pushed the character `r`, for EVERY rune `r` and any deque below. -/
+theorem builder_addCaseFold_char (r : Sym) (rest : List Node) (n : Nat) (es : List (List Sym)) :
+    addCaseFoldS ⟨.leaf .character [r] :: rest, n, es⟩ = .ok ⟨foldNode r :: rest, n, es⟩ := by
+  rw [builder_addCaseFold]
+  simp only [Node.leaf, Node.s, toLowerS, toUpperS, List.map_cons, List.map_nil, foldNode, ne_eq,
+    List.cons.injEq, and_true]
+
+theorem lowerSym_ascii (c : Sym) (h : c ≤ 127) :
+    lowerSym c = if 65 ≤ c ∧ c ≤ 90 then c + 32 else c := by
+  simp [lowerSym, unicodeToLower, maxASCII, h]
+theorem upperSym_ascii (c : Sym) (h : c ≤ 127) :
+    upperSym c = if 97 ≤ c ∧ c ≤ 122 then c - 32 else c := by
+  simp [upperSym, unicodeToUpper, maxASCII, h]
+
+/-- ASCII: a lower case letter becomes `c / c-32`, an upper case letter `c+32 / c` — the trees the
+    former `<[a-zA-Z]> { p.AddDoubleCharacter(text) }` built — and every other ASCII character
+    (digits, punctuation, controls) stays the plain character. -/
+theorem foldNode_ascii (c : Sym) (h : c ≤ 127) :
+    foldNode c =
+      if 97 ≤ c ∧ c ≤ 122 then .mk .alternate [] 0 [.leaf .character [c], .leaf .character [c - 32]]
+      else if 65 ≤ c ∧ c ≤ 90 then .mk .alternate [] 0 [.leaf .character [c + 32], .leaf .character [c]]
+      else .leaf .character [c] := by
+  unfold foldNode
+  rw [lowerSym_ascii c h, upperSym_ascii c h]
+  by_cases h1 : 97 ≤ c ∧ c ≤ 122
+  · have h2 : ¬ (65 ≤ c ∧ c ≤ 90) := by omega
+    have h3 : ¬ c = c - 32 := by omega
+    simp [h1, h2, h3]
+  · by_cases h2 : 65 ≤ c ∧ c ≤ 90
+    · simp [h1, h2]
+    · simp [h1, h2]
+
+/-- The regenerated `unicode.CaseRanges`: every range is non-empty and ends before the next begins. -/
+def caseRangesSorted : List CaseRange → Bool
+  | [] => true
+  | [a] => decide (a.lo ≤ a.hi)
+  | a :: b :: rest => decide (a.lo ≤ a.hi) && decide (a.hi < b.lo) && caseRangesSorted (b :: rest)
+
+theorem goCaseRanges_sorted : caseRangesSorted goCaseRanges = true := by kernel_rfl
+
+theorem caseRangesSorted_tail {a : CaseRange} {rest : List CaseRange}
+    (h : caseRangesSorted (a :: rest) = true) : caseRangesSorted rest = true := by
+  match rest, h with
+  | [], _ => rfl
+  | b :: rest', h =>
+    simp only [caseRangesSorted, Bool.and_eq_true] at h
+    exact h.2
+
+theorem caseRangesSorted_after : ∀ (rest : List CaseRange) (a : CaseRange),
+    caseRangesSorted (a :: rest) = true → ∀ c ∈ rest, a.hi < c.lo := by
+  intro rest
+  induction rest with
+  | nil => intro a _ c hc; cases hc
+  | cons b rest' ih =>
+    intro a h c hc
+    have h' := h
+    simp only [caseRangesSorted, Bool.and_eq_true, decide_eq_true_eq] at h'
+    rcases List.mem_cons.mp hc with rfl | hc'
+    · exact h'.1.2
+    · have hb := ih b h'.2 c hc'
+      have hbb : b.lo ≤ b.hi := by
+        match rest', h'.2 with
+        | [], h2 => simpa [caseRangesSorted] using h2
+        | _ :: _, h2 =>
+          simp only [caseRangesSorted, Bool.and_eq_true, decide_eq_true_eq] at h2
+          exact h2.1.1
+      omega
+
+/-- In a sorted table with disjoint ranges AT MOST ONE range holds `r`, and the model's search
+    finds it: whatever range of the table a search returns for `r` — Go's `lookupCaseRange` is a
+    binary search — is the one `lookupCaseRange` of the model returns. -/
+theorem lookupCaseRange_unique (r : Nat) : ∀ (tbl : List CaseRange), caseRangesSorted tbl = true →
+    ∀ cr ∈ tbl, cr.holds r = true → lookupCaseRange r tbl = some cr := by
+  intro tbl
+  induction tbl with
+  | nil => intro _ cr hc; cases hc
+  | cons a rest ih =>
+    intro hs cr hc hh
+    unfold lookupCaseRange
+    rw [List.find?_cons]
+    rcases List.mem_cons.mp hc with rfl | hc'
+    · rw [hh]
+    · have hlt := caseRangesSorted_after rest a hs cr hc'
+      have ha : a.holds r = false := by
+        simp only [CaseRange.holds, Bool.and_eq_true, decide_eq_true_eq] at hh
+        simp only [CaseRange.holds, Bool.and_eq_false_iff, decide_eq_false_iff_not]
+        omega
+      rw [ha]
+      exact ih (caseRangesSorted_tail hs) cr hc' hh
+
+theorem goCaseRanges_lookup (r : Nat) (cr : CaseRange) (hc : cr ∈ goCaseRanges)
+    (hh : cr.holds r = true) : lookupCaseRange r goCaseRanges = some cr :=
+  lookupCaseRange_unique r goCaseRanges goCaseRanges_sorted cr hc hh
 
 /-! ### `strconv.ParseInt` and the numeric escapes -/
 
